@@ -240,6 +240,7 @@ let run_op (e : medl) (words : string list) : (medl * string) Lib.outcome =
   | [ "ccommit" ] -> crc (CapiKeys.commit_preedit conv_oracle (cctx_of e))
   | [ "ccleanpre" ] -> let c, rc = CapiKeys.clean_preedit (cctx_of e) in Lib.Ok (keep_ctx c, string_of_int (Convz.int_of_z rc))
   | [ "ccleanbopo" ] -> let c, rc = CapiKeys.clean_bopomofo (cctx_of e) in Lib.Ok (keep_ctx c, string_of_int (Convz.int_of_z rc))
+  | [ "ccandlist"; w ] -> crc (CapiKeys.cand_list (n_of_int (int_of_string w)) (cctx_of e))
   | [ "cupadd"; tb ] ->
       (match split '|' tb with
        | [ t; b ] -> crc (CapiConfig.userphrase_add (cctx_of e) (ns_of '.' t) (ns_of '.' b))
